@@ -216,13 +216,17 @@ def run(ctx: core.Ctx, only=None) -> core.Result:
         cases = core.corpus_cases('C09') + [gen_case(ctx.rng) for _ in range(ctx.scale(24, 250))]
     for case in cases:
         if 'cost_profile' in case and 'nin' not in case:
-            run_system_case(ctx, res, case['seed'], case['cost_profile'])
+            with core.guarded(res, 'scenario-raised', case):
+                run_system_case(ctx, res, case['seed'], case['cost_profile'])
             continue
         case = {k: (tuple(case[k]) if k.endswith('_lim') else case[k]) for k in keys}
-        run_component_case(ctx, res, case, lines, post)
+        with core.guarded(res, 'scenario-raised', case):
+            run_component_case(ctx, res, case, lines, post)
     if only is None:
         for k in range(ctx.scale(3, 16)):
-            run_system_case(ctx, res, ctx.rng.randrange(10 ** 6), ['const', 'alpha', 'none', 'varying'][k % 4])
+            sd = ctx.rng.randrange(10 ** 6)
+            with core.guarded(res, 'scenario-raised', {'seed': sd, 'cost_profile': ['const', 'alpha', 'none', 'varying'][k % 4]}):
+                run_system_case(ctx, res, sd, ['const', 'alpha', 'none', 'varying'][k % 4])
     out = core.try_driver(lines, res, 'Amisc.activateBatch')
     for pst, o in zip(post, out or []):
         if pst is None:
